@@ -933,6 +933,38 @@ func c10ZeroOnlyUnset(c *Ctx) {
 	if n == 0 {
 		c.bad("zero-only-for-unset", "transform", 0, "no reflect.Zero call found in the transform package")
 	}
+	// the helpers whose true result the rule above takes for "unset": their answer is made of nil-ness and zero-ness
+	// tests (and other such helpers) only - never of the length of a value: an explicitly empty slice or map is set
+	for _, f := range w.funcsIn("transform") {
+		if nm := fnName(f); (nm != "isNil" && nm != "aliasUnset") || f.Parent() != nil || len(f.Blocks) == 0 {
+			continue
+		}
+		bad := ""
+		pb := &predBuilder{}
+		for _, r := range returnsOf(f) {
+			rv := retVals(r)
+			if len(rv) != 1 {
+				continue
+			}
+			fb, fi := map[string]bool{}, map[string]bool{}
+			atomsOf(pb.valueFormula(rv[0], 0), fb, fi)
+			for a := range fi {
+				if !strings.HasPrefix(a, "(reflect.Value).Kind(") && !strings.HasPrefix(a, "(reflect.Type).Kind(") {
+					bad = a
+				}
+			}
+			for a := range fb {
+				switch {
+				case strings.HasPrefix(a, "(reflect.Value).IsNil("), strings.HasPrefix(a, "(reflect.Value).IsZero("), strings.HasPrefix(a, "(reflect.Value).IsValid("), strings.HasPrefix(a, "isnil("):
+				case strings.Contains(a, "transform.isNil(") || strings.Contains(a, "transform.aliasUnset("):
+				default:
+					bad = a
+				}
+			}
+		}
+		c.check(bad == "", "zero-only-for-unset", relName(f)+"#helper", f.Pos(), "the unset-ness helper answers from IsNil / IsZero tests only",
+			"the helper whose result stands for 'unset' answers from "+bad+": a value that is set but empty (for example Len() == 0) is treated as unset, dropped by the alias and no longer overrides lower layers")
+	}
 }
 
 // c10AnonUnsetTotal: in the anonymous-flatten struct unmangler the returned
